@@ -1,5 +1,6 @@
 import json,sys
 pid=sys.argv[1]
+LA,LB=(sys.argv[2],sys.argv[3]) if len(sys.argv)>3 else ('A','B')
 for l in open('/verif/properties.jsonl'):
     p=json.loads(l)
     if p['id']==pid: break
@@ -15,16 +16,16 @@ Statement: {p['statement']}
 Quantified over: {p['quantifier']['text']}
 Source files it is anchored in: {', '.join(p['anchors']['files'])}
 
-YOUR TASK: produce TWO independent, realistic source changes (call them A and B, touching different mechanisms / code sites) to the library or its tools, each of which BREAKS this property while (1) still compiling and (2) still passing the repository's existing test-suite. Think of the kind of regression a maintainer could introduce by accident in a refactoring or "optimisation" (an off-by-one, a wrong index, a cached value, a swapped argument, a dropped special case, a too-tight bound, state leaking between calls, ...). Each change must need something SPECIFIC to manifest - a particular unusual-but-valid input, a multi-step sequence of calls, a particular combination of options, two cooperating sites that each look fine alone - not something ordinary use would expose at once (that is why the existing tests stay green). Do not break the build, do not edit tests or reference outputs, do not add obviously malicious code (no "if x == 12345"). Keep each change small (a few lines).
+YOUR TASK: produce TWO independent, realistic source changes (call them {LA} and {LB}, touching different mechanisms / code sites) to the library or its tools, each of which BREAKS this property while (1) still compiling and (2) still passing the repository's existing test-suite. Think of the kind of regression a maintainer could introduce by accident in a refactoring or "optimisation" (an off-by-one, a wrong index, a cached value, a swapped argument, a dropped special case, a too-tight bound, state leaking between calls, ...). Each change must need something SPECIFIC to manifest - a particular unusual-but-valid input, a multi-step sequence of calls, a particular combination of options, two cooperating sites that each look fine alone - not something ordinary use would expose at once (that is why the existing tests stay green). Do not break the build, do not edit tests or reference outputs, do not add obviously malicious code (no "if x == 12345"). Keep each change small (a few lines).
 
 How to build and test (use at most 6 parallel jobs so other work on this machine is not starved):
   cd {wt} && cmake -G Ninja -B _build -DCMAKE_BUILD_TYPE=RelWithDebInfo -DCMAKE_CXX_FLAGS=-Wno-error -DWB_MAKE_FORTRAN_WRAPPER=OFF . && cmake --build _build -j6 && ctest --test-dir _build -j6 --timeout 900
 The unmodified tree passes all tests except `grid_fault_edge_limits`, which fails already and is to be ignored. A change is acceptable only if the set of passing tests is unchanged.
 The library is _build/lib/libWorldBuilder.a (link with -Wl,--whole-archive ... -Wl,--no-whole-archive; headers in include/ and _build/include/). The public API is in include/world_builder/world.h (World(filename, has_output_dir=false, output_dir="", seed=1); properties(point, depth, {{ {{1,0,0}}=temperature, {{2,n,0}}=composition n, {{3,n,k}}=grains, {{4,0,0}}=tag, {{5,0,0}}=velocity }}); temperature(); composition(); distance_to_plane(); the 2D variants need a "cross section" in the file). Example .wb files are in tests/gwb-dat/*.wb and cookbooks/. Cartesian query convention: model bottom at z=0, i.e. point z + depth = constant height of the surface.
 
-For EACH change deliver into /tmp/seeded-out/{pid}/A/ and /tmp/seeded-out/{pid}/B/ :
+For EACH change deliver into /tmp/seeded-out/{pid}/{LA}/ and /tmp/seeded-out/{pid}/{LB}/ :
   - patch.diff : `git diff` of the source change only (must apply with `git apply` to a clean checkout of the worktree's HEAD)
   - a demonstration: demo.cc (plus any .wb/.dat input files it needs, referenced relative to the demo's own directory or given as argv) - or demo.sh if the subject is a tool - that exits 0 when the property holds for its scenario and exits non-zero (printing what went wrong) when it does not; it must FAIL with the change and PASS without it, and should check the property itself (an oracle independent of the changed code), not compare against hard-coded output of the old binary where that can be avoided.
   - build_and_run.sh : takes the path of a built tree root (one containing include/, _build/include/, _build/lib/libWorldBuilder.a, _build/bin/gwb-dat ...) as $1, compiles the demo against it and runs it; exit status = demo's status.
   - NOTES.md : which mechanism is broken, what exactly is needed to make it manifest, and the evidence you gathered (ctest summary with the change; demo output with and without the change).
-Verify everything yourself: demo passes on the clean tree, full ctest with the change applied shows the same passing set, demo fails with the change. When you are done, restore the worktree to a clean state (`git checkout -- .`; keep _build) and report in your final message, for A and B: one-paragraph description, what is needed to trigger, and the verification results. If you cannot find a second change that meets all conditions, deliver one and say so.""")
+Verify everything yourself: demo passes on the clean tree, full ctest with the change applied shows the same passing set, demo fails with the change. When you are done, restore the worktree to a clean state (`git checkout -- .`; keep _build) and report in your final message, for {LA} and {LB}: one-paragraph description, what is needed to trigger, and the verification results. If you cannot find a second change that meets all conditions, deliver one and say so.""")
